@@ -28,7 +28,8 @@ PROPERTY = 'C10'
 LEVEL = 'exploration'
 RULE = ('Hypothesis-generated configurations (layer tree of 2-6 leaves with named / unnamed groups and groups that '
         'have own sources; per leaf 1-2 sources: direct WMS (transparent or opaque-declared) or png / jpeg cache on '
-        'GLOBAL_MERCATOR / GLOBAL_WEBMERCATOR / GLOBAL_GEODETIC / a custom UTM32 grid, stored or disable_storage, '
+        'GLOBAL_MERCATOR / GLOBAL_WEBMERCATOR / GLOBAL_GEODETIC / a custom UTM32 grid / two local grids (sw and nw origin) '
+        'whose bbox is not a multiple of the tile extent, stored or disable_storage, '
         'meta 1x1 / 2x2; optional tile_sources) x 6 requests each: WMS 1.1.1 / 1.3.0 GetMap (EPSG:3857 / 4326 / 25832, '
         '40-256 px, non-square pixels, png / jpeg, transparent or bgcolor, 1-3 layer names incl. groups; half of the '
         'configurations has services.wms.on_source_errors raise, the others notify or absent; a third has services.wms.bbox_srs with plain codes and explicit {srs, bbox} extents, and two thirds of their '
@@ -37,7 +38,8 @@ RULE = ('Hypothesis-generated configurations (layer tree of 2-6 leaves with name
         'authorize callback result: full / none / unauthenticated / no callback / partial with per-name '
         'map / featureinfo / tile = True / False / missing, names missing, per-layer and / or global limited_to sent '
         'as bbox list / tuple, WKT, multi-line WKT or shapely geometry (rectangle, convex, star, L, with hole, multi '
-        'part, island in hole) in the request SRS or another SRS (densified so that vertex-wise and true '
+        'part, island in hole; for tiles of the local grids - mostly first / last row and column, i.e. tiles that overhang the '
+        'grid bbox - the grid bbox itself, grown or shrunk by 0.5-8 px) in the request SRS or another SRS (densified so that vertex-wise and true '
         'reprojection agree to < 0.2 px).  A case (= one request) is non-trivial when the boundary of a limited_to '
         'geometry that applies to a permitted layer crosses the response (pixels > 2 px inside and > 1 px outside both '
         'exist; for feature info: the boundary crosses the query image); distinct = distinct (configuration, request).')
@@ -61,6 +63,9 @@ ASSUMPTIONS = [
     'accepted besides the modelled content; MapProxy pastes the reduced picture at truncated whole-pixel offsets, so for '
     'requests that reach beyond the extent all pixel bands are 1.05 px wider (2.06 px outside / 3.05 px inside); a request '
     'that does not intersect the extent is answered blank without consulting the callback and is not judged',
+    'the part of a border tile beyond the bbox of its (local) grid may be blank or filled (meta tile requests are cut to the '
+    'grid bbox, single tile requests are not): blank (white for jpeg caches) is accepted there besides the permitted content; '
+    'overhanging tiles of jpeg caches are not judged within 16 px of the grid border and with the JPEG tolerance',
     'blank = alpha 0, or the requested bgcolor on opaque output (both accepted where the statement says "transparent (or '
     'background colour)")',
     'layers requested below a layer that MapProxy may treat as opaque (direct WMS source with transparent: false) may be '
@@ -102,6 +107,19 @@ GRIDS = {
     # covers every request frame the generator can produce (lon 7-11, lat 47-54, <= 256 px of <= 952 m) with margin
     'utm32': dict(bbox=(0.0, 3000000.0, 1024000.0, 7096000.0), span0=1024000.0, origin='nw', srs='EPSG:25832',
                   n0=(1, 4), profile=False, spec='EPSG25832', levels=(1, 8)),
+}
+# local grids whose bbox is NOT a multiple of the tile extent on levels 0-8 (813/512 and 1207/512 resp. 1707/512 spans at
+# level 0): border tiles overhang the grid bbox.  They cover every WMS frame the generator produces with margin.  Only
+# the services whose row numbering is the grid's own are used on them (flipping is not defined for such grids).
+GRIDS['loc_sw'] = dict(bbox=(100000.0, 5000000.0, 913000.0, 6207000.0), span0=512000.0, origin='sw', srs='EPSG:25832',
+                       profile=False, spec='EPSG25832', levels=(0, 5), local=True, svcs=['tms', 'tiles', 'kml'])
+GRIDS['loc_nw'] = dict(bbox=(600000.0, 5700000.0, 1413000.0, 7407000.0), span0=512000.0, origin='nw', srs='EPSG:3857',
+                       profile=False, spec='EPSG3857', levels=(0, 5), local=True, svcs=['tiles', 'wmts', 'wmts_kvp'])
+LOCAL_GRID_CONF = {
+    'loc_sw': {'srs': 'EPSG:25832', 'bbox': [100000, 5000000, 913000, 6207000], 'origin': 'sw',
+               'res': [2000.0 / 2 ** i for i in range(10)]},
+    'loc_nw': {'srs': 'EPSG:3857', 'bbox': [600000, 5700000, 1413000, 7407000], 'origin': 'nw',
+               'res': [2000.0 / 2 ** i for i in range(10)]},
 }
 UTM_GRID_CONF = {'srs': 'EPSG:25832', 'bbox': [0, 3000000, 1024000, 7096000], 'origin': 'nw',
                  'res': [4000.0 / 2 ** i for i in range(10)]}
@@ -248,6 +266,8 @@ class Model(object):
                 }
                 if s['grid'] == 'utm32':
                     grids['utm32'] = UTM_GRID_CONF
+                if s['grid'] in LOCAL_GRID_CONF:
+                    grids[s['grid']] = LOCAL_GRID_CONF[s['grid']]
 
         def ref(u):
             return ('c_' if self.sources[u]['kind'] == 'cache' else 's_') + u
@@ -442,7 +462,19 @@ def concretise_limit(limit, frame):
     """abstract limited_to description -> what the callback returns (srs, polygons in that srs, how it is sent) and the
     region it means in the pixel space of `frame`.  Deterministic (replay recomputes it)."""
     shapely = _shp()
-    polys_n = valid_polys(shape_polys(limit['shape']))
+    if limit['shape']['t'] == 'gridbox':
+        # the grid bbox grown by `grow` pixels of this tile, in normalised tile coordinates; sides far away from the
+        # tile are pulled in to 1.5 tile widths (no effect on the tile, keeps reprojected edges short)
+        gb = getattr(frame, 'grid_bbox', None) or frame.bbox
+        gx0, gy0 = frame.ground_to_px(gb[0], gb[3])
+        gx1, gy1 = frame.ground_to_px(gb[2], gb[1])
+        gr = limit['shape']['grow']
+        u0, u1 = (float(gx0) - gr) / frame.size[0], (float(gx1) + gr) / frame.size[0]
+        v0, v1 = (float(gy0) - gr) / frame.size[1], (float(gy1) + gr) / frame.size[1]
+        u0, v0, u1, v1 = max(u0, -1.5), max(v0, -1.5), min(u1, 2.5), min(v1, 2.5)
+        polys_n = [[[(u0, v0), (u1, v0), (u1, v1), (u0, v1)]]]
+    else:
+        polys_n = valid_polys(shape_polys(limit['shape']))
     if not polys_n:
         polys_n = shape_polys({'t': 'rect', 'c': (0.5, 0.5), 'r': (0.3, 0.3)})
     w, h = frame.size
@@ -657,7 +689,7 @@ def source_specs(draw, kind=None):
          'transparent': draw(st.sampled_from([True, True, False]))}
     if kind == 'cache':
         s['grid'] = draw(st.sampled_from(['GLOBAL_MERCATOR', 'GLOBAL_MERCATOR', 'GLOBAL_WEBMERCATOR', 'GLOBAL_GEODETIC',
-                                          'utm32']))
+                                          'utm32', 'loc_sw', 'loc_nw']))
         s['fmt'] = draw(st.sampled_from(['png', 'png', 'jpeg']))
         s['storage'] = draw(st.sampled_from([False, False, True]))
         s['meta'] = draw(st.sampled_from([1, 1, 2]))
@@ -773,6 +805,26 @@ def auth_specs(draw, model, relevant, feature, island_ok=True, allow_both=True, 
     return spec
 
 
+def _wmts_ok(grid):
+    return grid != 'GLOBAL_GEODETIC' and (not GRIDS[grid].get('local') or 'wmts' in GRIDS[grid]['svcs'])
+
+
+def _grid_limits(draw, req, name):
+    """tile requests on a local grid: most limited_to geometries are derived from the grid bbox (the user is granted
+    exactly the layer extent, or the extent grown / shrunk by a few pixels of the requested level)"""
+    auth = req['auth']
+    if auth['mode'] != 'partial' or name not in auth['layers'] or draw(st.sampled_from([True, True, True, False])) is False:
+        return
+    grow = draw(st.sampled_from([0.0, 0.0, 0.5, 1.5, 3.0, 8.0, -0.5, -1.5, -3.0, -8.0]))
+    send = draw(st.sampled_from(['bbox', 'bbox_tuple', 'wkt', 'wkt_lines', 'shapely']))
+    srs = draw(st.sampled_from(['same', 'same', 'same'] + LIMIT_SRS))
+    lim = {'shape': {'t': 'gridbox', 'grow': grow}, 'srs': srs, 'send': send}
+    if auth.get('global') and draw(st.booleans()):
+        auth['global'] = lim
+    else:
+        auth['layers'][name]['limit'] = lim
+
+
 def _exclude_layer_srs(req, name, frame_srs, open_sigs):
     """open finding C10/tile/limits-intersected-in-layer-srs: no request-wide limit next to a layer limit that is given
     in another SRS than the tile SRS (remembered, counted in stats.excluded)"""
@@ -801,7 +853,7 @@ def requests_(draw, model, open_sigs):
     if tl:
         kinds += ['tile', 'tile', 'tile', 'tile']
         if any(model.fi_sources([model.tile_source(model.nodes[n])]) and
-               model.sources[model.tile_source(model.nodes[n])]['grid'] != 'GLOBAL_GEODETIC' for n in tl):
+               _wmts_ok(model.sources[model.tile_source(model.nodes[n])]['grid']) for n in tl):
             kinds += ['wmts_fi']
     queryable = [n for n in model.order if model.queryable(model.nodes[n])]
     if not queryable:
@@ -853,7 +905,7 @@ def requests_(draw, model, open_sigs):
     else:
         if kind == 'wmts_fi':
             cand = [n for n in tl if model.fi_sources([model.tile_source(model.nodes[n])]) and
-                    model.sources[model.tile_source(model.nodes[n])]['grid'] != 'GLOBAL_GEODETIC']
+                    _wmts_ok(model.sources[model.tile_source(model.nodes[n])]['grid'])]
         else:
             cand = tl
         name = draw(st.sampled_from(cand))
@@ -862,16 +914,25 @@ def requests_(draw, model, open_sigs):
         req['layer'] = name
         req['zi'] = draw(st.integers(lo, hi))
         allow_both = F_GLOBAL_IGNORED not in open_sigs
+        local = bool(GRIDS[grid].get('local'))
+        if local and draw(st.sampled_from([True, True, True, False])):
+            # a border tile: first / last column and row (the last ones overhang the grid bbox)
+            req['border'] = {'col': draw(st.sampled_from(['last', 'last', 'first', 'any'])),
+                             'row': draw(st.sampled_from(['last', 'last', 'first', 'any']))}
         if kind == 'tile':
             svcs = ['tms', 'tms', 'tiles', 'kml']
             if grid != 'GLOBAL_GEODETIC':
                 svcs += ['wmts', 'wmts_kvp']
+            if GRIDS[grid].get('local'):
+                svcs = GRIDS[grid]['svcs']
             req['svc'] = draw(st.sampled_from(svcs))
             req['origin_param'] = None
-            if req['svc'] == 'tiles' and grid != 'GLOBAL_GEODETIC':
+            if req['svc'] == 'tiles' and grid != 'GLOBAL_GEODETIC' and not GRIDS[grid].get('local'):
                 req['origin_param'] = draw(st.sampled_from([None, None, 'nw', 'sw']))
             req['spec'] = draw(st.booleans())
             req['auth'] = draw(auth_specs(model, {name}, 'tile', island_ok, allow_both, explicit=[name]))
+            if local:
+                _grid_limits(draw, req, name)
             _exclude_layer_srs(req, name, GRIDS[grid]['srs'], open_sigs)
         else:
             req['rest'] = draw(st.booleans())
@@ -879,6 +940,8 @@ def requests_(draw, model, open_sigs):
             req['j'] = draw(st.integers(0, 255))
             req['near'] = draw(near_specs())
             req['auth'] = draw(auth_specs(model, {name}, 'featureinfo', island_ok, allow_both, explicit=[name]))
+            if local:
+                _grid_limits(draw, req, name)
             _exclude_layer_srs(req, name, GRIDS[grid]['srs'], open_sigs)
     return req
 
@@ -928,25 +991,42 @@ def tile_address(req, grid_name):
     g = GRIDS[grid_name]
     zi = req['zi']
     span = g['span0'] / 2 ** zi
-    cols = int(round(g['n0'][0] * 2 ** zi))
-    rows = int(round(g['n0'][1] * 2 ** zi))
+    x0, y0, x1, y1 = g['bbox']
+    cols = int(math.ceil((x1 - x0) / span - 1e-9))
+    rows = int(math.ceil((y1 - y0) / span - 1e-9))
     X, Y = ground.transform(req['lon'], req['lat'], 'EPSG:4326', g['srs'])
-    x0, y0 = g['bbox'][0], g['bbox'][1]
+    native = g['origin']
     col = min(max(int((float(X) - x0) // span), 0), cols - 1)
-    row_s = min(max(int((float(Y) - y0) // span), 0), rows - 1)   # from the south
+    # row in the grid's own numbering; tiles are anchored at the origin corner, so on a grid whose bbox is not a
+    # multiple of the tile extent the last row / column overhangs the bbox
+    if native == 'sw':
+        row = min(max(int((float(Y) - y0) // span), 0), rows - 1)
+    else:
+        row = min(max(int((y1 - float(Y)) // span), 0), rows - 1)
+    b = req.get('border')
+    if b:
+        col = {'first': 0, 'last': cols - 1}.get(b.get('col'), col)
+        row = {'first': 0, 'last': rows - 1}.get(b.get('row'), row)
     svc = req.get('svc', 'wmts')
     if req['kind'] == 'wmts_fi' or svc in ('wmts', 'wmts_kvp'):
         origin = 'nw'
     elif svc in ('tms', 'kml'):
         origin = 'sw'
     else:
-        origin = g['origin']
+        origin = native
     if req.get('origin_param') and svc == 'tiles':
         origin = req['origin_param']
-    y = row_s if origin == 'sw' else rows - 1 - row_s
+    if origin != native and g.get('local'):
+        raise core.HarnessError('service %s does not address grid %s in its own numbering' % (svc, grid_name))
+    y = row if origin == native else rows - 1 - row
     z = zi - 1 if (svc == 'tms' and req['kind'] == 'tile' and g['profile']) else zi
-    bbox = (x0 + col * span, y0 + row_s * span, x0 + (col + 1) * span, y0 + (row_s + 1) * span)
-    return Frame(g['srs'], bbox, (256, 256)), col, y, z, rows
+    if native == 'sw':
+        bbox = (x0 + col * span, y0 + row * span, x0 + (col + 1) * span, y0 + (row + 1) * span)
+    else:
+        bbox = (x0 + col * span, y1 - (row + 1) * span, x0 + (col + 1) * span, y1 - row * span)
+    fr = Frame(g['srs'], bbox, (256, 256))
+    fr.grid_bbox = g['bbox']
+    return fr, col, y, z, rows
 
 
 def wms_url(req, frame, what):
@@ -1346,9 +1426,20 @@ class Harness(object):
             arr = ground.to_rgba_array(img)
             classes.append('tile-out:' + ctype.split('/')[-1])
             item = {'name': name, 'uid': uid, 'allowed': True, 'regions': regions_for(name), 'maybe_absent': False}
+            grid_px = None
+            overhang = False
+            gb = getattr(frame, 'grid_bbox', None)
+            if gb is not None:
+                ax, ay = frame.ground_to_px(gb[0], gb[3])
+                bx, by = frame.ground_to_px(gb[2], gb[1])
+                grid_px = (float(ax), float(ay), float(bx), float(by))
+                if ax > 0 or ay > 0 or bx < frame.size[0] or by < frame.size[1]:
+                    classes.append('tile-overhangs-grid-bbox')
+                    overhang = True
             v, nt = self.judge_pixels(arr, frame, [item], set(), False, 'tile.' + service, case, classes, deviating,
                                       both=(name in concs and glob is not None), layer_region=concs.get(name),
-                                      tol=TOL_PNG + 4)
+                                      tol=TOL_JPEG if (fmt == 'jpeg' and overhang) else TOL_PNG + 4, grid_px=grid_px,
+                                      grid_edge_skip=16 if (fmt == 'jpeg' and overhang) else 0)
             return done(v, nt)
 
         # =========================================================================================
@@ -1521,7 +1612,7 @@ class Harness(object):
     # -- pixels ------------------------------------------------------------------------------------
 
     def judge_pixels(self, arr, frame, items, denied_uids, is_jpeg, svc, case, classes, deviating, both=False,
-                     layer_region=None, tol=None, extent_px=None):
+                     layer_region=None, tol=None, extent_px=None, grid_px=None, grid_edge_skip=0):
         """items: permitted draw items bottom -> top.  Returns (violation or None, nontrivial).
         extent_px: rectangle (pixel coordinates) of the configured SRS extent when the request reaches beyond it."""
         m = self.model
@@ -1583,8 +1674,22 @@ class Harness(object):
             if is_jpeg:
                 out_of_extent = (X < ex0 - band) | (X > ex1 + band) | (Y < ey0 - band) | (Y > ey1 + band)
                 expected[~(well_in_extent | out_of_extent)] = -3
+        if grid_px is not None:
+            # beyond the bbox of the cache grid a border tile may or may not have content (meta tile requests are cut to
+            # the grid bbox, single tile requests are not): blank is accepted there, a leak is still a leak
+            gx0, gy0, gx1, gy1 = grid_px
+            beyond_grid = ~((X > gx0 + 2) & (X < gx1 - 2) & (Y > gy0 + 2) & (Y < gy1 - 2))
+            maybe_blank |= beyond_grid
+            if grid_edge_skip:
+                # jpeg cache: the step between content and white no-data at the grid border rings over two blocks
+                k = grid_edge_skip
+                near_edge = ((np.abs(X - gx0) <= k) | (np.abs(X - gx1) <= k) | (np.abs(Y - gy0) <= k) | (np.abs(Y - gy1) <= k))
+                expected[near_edge] = -3
         judged = expected != -3
         blank_obs = (obs == BLANK) | (obs == m.bg_idx)
+        if grid_px is not None:
+            # "no data" of an opaque (jpeg) cache is white
+            blank_obs |= beyond_grid & (arr[..., :3].min(axis=2) >= 250) & (arr[..., 3] == 255)
         okm = (obs == expected) | ((expected == BLANK) & blank_obs) | (maybe_blank & blank_obs)
         bad = judged & ~okm
         classes.append('crosses-boundary' if nontrivial else ('limited-trivially' if all_regions else 'unlimited'))
